@@ -273,6 +273,22 @@ impl C17 {
             let k = ["env", "party", "param"][*kind];
             ctx.count(&format!("style/{k}/{}", style_of(slot)));
         }
+        // a local spelled like a parameter of its tx up to letter case: two distinct symbols for the analyzer (scope
+        // resolution is case sensitive), and a local is not an argument - the parameter stays required
+        if rng.chance(1, 3) {
+            let cands: Vec<usize> = (0..g.prog.txs.len()).filter(|t| !g.prog.txs[*t].locals.is_empty() && !names.params[*t].is_empty()).collect();
+            if !cands.is_empty() {
+                let t = *rng.pick(&cands);
+                let pname = rng.pick(&names.params[t]).clone();
+                let lname = rng.pick(&g.prog.txs[t].locals).0.clone();
+                let variant = other_case(&pname, rng);
+                let taken = names.env.contains(&variant) || names.parties.contains(&variant) || names.params.iter().flatten().any(|x| *x == variant);
+                if variant != pname && !taken {
+                    src = rename_ident(&src, &lname, &variant);
+                    ctx.count("feature/local-named-like-parameter-up-to-case");
+                }
+            }
+        }
         // two declared names made equal up to case (or fully equal across kinds)
         let mut collision: Option<String> = None;
         if collide && !cross && all.len() >= 2 {
@@ -511,6 +527,12 @@ impl C17 {
             };
             if crate::canon::canon_bytes(&decoded) != crate::canon::canon_bytes(low) {
                 ctx.violation("embedded-ir-differs", detail(json!({"tx": tx_name})));
+            } else {
+                // the same two trees read field by field (a view that does not go through the model's own Serialize)
+                let (sa, sb) = (crate::structural::tx(low), crate::structural::tx(&decoded));
+                if sa != sb {
+                    ctx.violation(format!("embedded-ir-differs:fields:{}", crate::structural::first_difference(&sa, &sb)), detail(json!({"tx": tx_name})));
+                }
             }
             // names
             let param_decl = props_of(&entry["params"]);
@@ -735,7 +757,7 @@ impl Property for C17 {
         "C17"
     }
     fn rule(&self) -> String {
-        "the real `tx3c build <src> --emit tii` binary is run (one process per program) on generated programs whose parameters, env vars and parties are re-spelled in lower / UPPER / mixed case, with unused parameters / env vars / parties, policies of every form, optional --profile / --profile-env-file flags and, in the collision phase, two declared names made equal up to case; the file is read as JSON and for every tx: the envelope decodes (declared encoding and version) to an IR canonically equal to lower(P, tx) computed in-process; every key of find_params(decoded IR) is declared as a parameter, party or environment entry under the identical spelling (a case-insensitive match only is `spelling`, none is `undeclared`), is declared in one section only and no other declared key equals it up to case (`collision`); a request built from exactly the declared keys (values typed by the declared schemas; parties and parameters in args, environment in env) passes parse_resolve_request, returns every required key with the supplied value and leaves no value parameter after apply_args. typed-params: hand-shaped programs whose tx takes a parameter typed by a record, a variant, a chain of 0..3 aliases of one, or a list / map of it (next to, or without, aliases of primitive types) and uses it as a datum: every key the embedded IR requires must be declared. In the collision phase any two declarations visible to one tx whose keys are equal up to letter case (incl. an env var plus two parameters spelled alike, and an env var shadowed exactly by a parameter of one tx while a parameter of another tx spells the key differently) must be refused by the analyzer, a parameter spelled exactly like an env var excepted. Non-trivial: the IR requires >= 1 key and >= 2 keys are declared; distinct = distinct (source, tx).".into()
+        "the real `tx3c build <src> --emit tii` binary is run (one process per program) on generated programs whose parameters, env vars and parties are re-spelled in lower / UPPER / mixed case, with unused parameters / env vars / parties, locals spelled like a parameter up to letter case, policies of every form, optional --profile / --profile-env-file flags and, in the collision phase, two declared names made equal up to case; the file is read as JSON and for every tx: the envelope decodes (declared encoding and version) to an IR equal to lower(P, tx) computed in-process, both through the canonical serialisation and read field by field; every key of find_params(decoded IR) is declared as a parameter, party or environment entry under the identical spelling (a case-insensitive match only is `spelling`, none is `undeclared`), is declared in one section only and no other declared key equals it up to case (`collision`); a request built from exactly the declared keys (values typed by the declared schemas; parties and parameters in args, environment in env) passes parse_resolve_request, returns every required key with the supplied value and leaves no value parameter after apply_args. typed-params: hand-shaped programs whose tx takes a parameter typed by a record, a variant, a chain of 0..3 aliases of one, or a list / map of it (next to, or without, aliases of primitive types) and uses it as a datum: every key the embedded IR requires must be declared. In the collision phase any two declarations visible to one tx whose keys are equal up to letter case (incl. an env var plus two parameters spelled alike, and an env var shadowed exactly by a parameter of one tx while a parameter of another tx spells the key differently) must be refused by the analyzer, a parameter spelled exactly like an env var excepted. Non-trivial: the IR requires >= 1 key and >= 2 keys are declared; distinct = distinct (source, tx).".into()
     }
     fn assumptions(&self) -> Vec<String> {
         vec![
@@ -752,7 +774,7 @@ impl Property for C17 {
         }
     }
     fn required_features(&self, _tier: Tier) -> Vec<String> {
-        let mut v: Vec<String> = ["cli/ok", "closure/closed", "feature/unused-param", "feature/unused-env", "feature/env-vars", "feature/policy-assign", "feature/policy-hash-only", "feature/policy-with-script", "cli/profile-env-file", "cli/profile-flag", "typed-params/checked", "collision-attempt/env+param+param", "collision-attempt/env+shadow+case-variant-in-another-tx"].iter().map(|s| s.to_string()).collect();
+        let mut v: Vec<String> = ["cli/ok", "closure/closed", "feature/unused-param", "feature/unused-env", "feature/env-vars", "feature/policy-assign", "feature/policy-hash-only", "feature/policy-with-script", "cli/profile-env-file", "cli/profile-flag", "typed-params/checked", "collision-attempt/env+param+param", "collision-attempt/env+shadow+case-variant-in-another-tx", "feature/local-named-like-parameter-up-to-case"].iter().map(|s| s.to_string()).collect();
         for k in ["env", "party", "param"] {
             for s in ["lower", "upper", "mixed"] {
                 v.push(format!("style/{k}/{s}"));
